@@ -45,7 +45,7 @@ def main(argv=None):
         print("MACHINERY-FAILURE (TLC):", e)
         return 2
     except Exception:
-        traceback.print_exc()
+        traceback.print_exc(file=sys.stdout)
         print("MACHINERY-FAILURE (harness exception)")
         return 2
     if a.replay:
